@@ -21,8 +21,9 @@ def blitGlobals : BLit → List String
 def bodyGlobals (b : List BLit) : List String := b.flatMap blitGlobals
 
 structure PParams extends Params where
-  /-- satisfaction of a head at an HT pair under an environment -/
-  headSat : Env → Interp → Interp → Head → Prop
+  /-- satisfaction of a head at an HT pair under an environment (the first argument is the set of global variables
+  of the rule: head elements quantify their local ones) -/
+  headSat : (String → Prop) → Env → Interp → Interp → Head → Prop
   /-- global variables contributed by the head -/
   headGlobals : Head → List String
 
@@ -33,8 +34,10 @@ def ruleGlobals (h : Head) (b : List BLit) : List String := P.headGlobals h ++ b
 /-- satisfaction of a statement at `(H,T)`; objectives and directives constrain nothing -/
 def stmSat (H T : Interp) : Stm → Prop
   | .rule _ _ h b => ∀ e : Env,
-      (bodySat P.toParams (fun v => v ∈ ruleGlobals P h b) e H T b → P.headSat e H T h) ∧
-      (bodySat P.toParams (fun v => v ∈ ruleGlobals P h b) e T T b → P.headSat e T T h)
+      (bodySat P.toParams (fun v => v ∈ ruleGlobals P h b) e H T b →
+        P.headSat (fun v => v ∈ ruleGlobals P h b) e H T h) ∧
+      (bodySat P.toParams (fun v => v ∈ ruleGlobals P h b) e T T b →
+        P.headSat (fun v => v ∈ ruleGlobals P h b) e T T h)
   | _ => True
 
 def Models (prg : Prog) (H T : Interp) : Prop := ∀ s ∈ prg, stmSat P H T s
